@@ -13,7 +13,9 @@
     "counts are within range"                   binomial_range (0 ≤ k ≤ n), geometric_ge_one (k ≥ 1, full strength)
     "bounded variates stay within their bounds" unit_uniform_range, uniform_range, triangular_range, std_beta_range,
                                                 PERT_mod_range
-    "positive variates are non-negative"        zig_exp_support (+ exp_tables_ok, expTab_facts); exponential-based samplers
+    "positive variates are non-negative"        std_gamma_guard_support, std_gamma_guard_taken (the shape < 1 guard of
+                                                cmb_random_std_gamma; the rejection loop behind it is an abstract input);
+                                                zig_exp_support (+ exp_tables_ok, expTab_facts); exponential-based samplers
                                                 are sums / positive multiples of it (not restated)
     "the build-time generated ziggurat and alias tables"   exp_tables_ok, nor_tables_ok (decide by the kernel over the tables)
     "alias tables ... probability vectors"      alias_table_valid: for EVERY vector pa (admissible or not) the construction
@@ -103,6 +105,31 @@ theorem PERT_mod_range (min mode max lambda beta : Rat) (h1 : min < max) (hb0 : 
   unfold cmb_random_PERT_mod
   simp only []
   constructor <;> nlinarith
+
+/-! ### the small-shape guard of cmb_random_std_gamma (the leading statements of the function; the rejection loop is an abstract input) -/
+
+/-- `cmb_random_std_gamma(shape)` stays in [0, ∞) through the guard `shape < 1`: it returns `g * pow(u, 1/shape)` with g the value of
+    the recursive call for `shape + 1`, u the `cmb_random()` drawn AFTER that call (exactly one more raw word), for every `pow`
+    that is non-negative on non-negative bases — given that the recursive call and the rejection loop return non-negative
+    values.  Against the source as it stood there is no guard: the function (documented for shape > 0) went straight into
+    Marsaglia-Tsang, which yields NaN for shape ≤ 1/3 (corpus/rngdist/std-gamma-shape-below-one.txt). -/
+theorem std_gamma_guard_support (shape : Rat) (fpow : Rat → Rat → Rat) (g rest : Rat) (n : Nat) (raw : Nat → Nat) (k : Nat)
+    (h : Raw64 raw) (hg : 0 ≤ g) (hrest : 0 ≤ rest) (hpow : ∀ b e, 0 ≤ b → 0 ≤ fpow b e) :
+    0 ≤ (cmb_random_std_gamma shape fpow g rest n raw k).1 ∧
+    (cmb_random_std_gamma shape fpow g rest n raw k).2 = (if shape < 1 then k + n + 1 else k) := by
+  unfold cmb_random_std_gamma
+  simp only []
+  split
+  · obtain ⟨h0, _, h2⟩ := unit_uniform_range raw (k + n) h
+    exact ⟨mul_nonneg hg (hpow _ _ h0), h2⟩
+  · exact ⟨hrest, rfl⟩
+
+/-- below 1 the value does not depend on the rejection loop of THIS call at all (it is not entered) -/
+theorem std_gamma_guard_taken (shape : Rat) (fpow : Rat → Rat → Rat) (g rest rest' : Rat) (n : Nat) (raw : Nat → Nat) (k : Nat)
+    (hs : shape < 1) :
+    cmb_random_std_gamma shape fpow g rest n raw k = cmb_random_std_gamma shape fpow g rest' n raw k := by
+  unfold cmb_random_std_gamma
+  simp only [hs, if_true]
 
 /-! ### discrete samplers -/
 
